@@ -23,8 +23,8 @@ ENTRY = {'coq_dir': 'C05',
          'protocol notifications, manager events (OpenFailure with its error count), return code and a dump of peer states '
          '(Opening with its transport mask) / address book by kind / pending / counted sets / opening_errors are compared with '
          'the extracted Coq model. (2) transport streams (harness/src/c05_tcp.rs; first number 9000 TCP / 9001 WebSocket / 9002 '
-         'QUIC; one TCP and one WebSocket case in 20 quick / 600 thorough; QUIC: the aux stream of the thorough tier, the '
-         'harness built a second time with --features quic, 500 cases + corpus/C05-quic): the REAL TcpTransport / '
+         'QUIC; one TCP and one WebSocket case in 20 quick / 1000 thorough; QUIC: the aux stream of the thorough tier, the '
+         'harness built a second time with --features quic, 300 cases + corpus/C05-quic): the REAL TcpTransport / '
          'WebSocketTransport / QuicTransport (VerifTcpTransport / VerifWsTransport / VerifQuicTransport facades) is driven over '
          'loopback sockets through its Transport trait and Stream::poll_next (polled until Pending without a self-wake) with '
          'adaptive call sequences (5-40 steps quick, 8-70 thorough, max_parallel_dials from {8,1,2,3}): ids drawn from the '
@@ -209,5 +209,5 @@ ENTRY = {'coq_dir': 'C05',
                 'features': 'quic',
                 'target_dir': 'target-quic',
                 'args': '--only-transport 9002',
-                'cases': {'thorough': 500},
+                'cases': {'thorough': 300},
                 'corpus': 'corpus/C05-quic'}}
